@@ -302,7 +302,8 @@ void run(size_t idx) {
 }
 
 MonReg reg({"C02", "exploration",
-			"inputs as C01 (52 real files, float-mutated variants, one synthesised file per block type x version x seed, API-built in-memory models incl. skin/partitions/segments, models after random API edit sequences incl. detached sub-graphs, reversed block order). "
+			"inputs as C01 (52 real files, float-mutated variants, one synthesised file per block type x version x seed, API-built in-memory models incl. skin/partitions/segments, models after random API edit sequences incl. detached sub-graphs (half of them queried before the edits), reversed block order). "
+			"Edited and API-built models get two further passes in which the first save precedes every query (between those saves only queries that leave the model alone). "
 			"Per input and per option set {raw, default}: one NifFile object is saved three times with the hook trace installed; oracle 1: the canonical dumps of save 1, 2, 3 (per block: "
 			"type, payload with reference fields replaced by the identity of the target object and string indices by their text, in file order) are equal; oracle 2: the ~60-call query "
 			"battery answers identically after save 1, 2, 3; oracle 3: the logical part of the battery (geometry, skin, textures, segments, partitions, transforms; no block indices or "
